@@ -78,14 +78,22 @@ func (e *sfEnv) runPs(sc *sfScenario, end M) (obs []sfObs) {
 		json.Unmarshal(raw, &el)
 		pts := int64(180000 + 3600*i)
 		b := proj.SfPsElem(el.K, el.A, pts)
+		if el.B == "cut" {
+			// n cuts the RTP packet (header + element), not the element
+			f.feed("cut", el.N, uint32(pts), b)
+			obs = append(obs, sfObs{Codes: []int{}, Alive: true})
+			continue
+		}
 		if el.N >= 0 && el.N < len(b) {
 			b = b[:el.N]
 		}
-		if len(b) == 0 && el.B == "ok" {
-			b = []byte{0}
-		}
-		f.feed(el.B, 14, uint32(pts), b)
+		f.feed(el.B, 0, uint32(pts), b)
 		obs = append(obs, sfObs{Codes: []int{}, Alive: true})
+	}
+	// two more well-formed video PES packets with later time stamps make the unpacker hand over what it buffered
+	for r := 0; r < 2; r++ {
+		pts := int64(360000 + 3600*r)
+		f.feed("ok", 0, uint32(pts), proj.SfPsElem("pesv", "ok", pts))
 	}
 	del()
 	// a second, well-formed session on the same server is served: its frames reach the group
